@@ -161,7 +161,7 @@ pub fn run_c09(shard: &Shard) -> i32 {
     if let Some(path) = &shard.replay { return replay(path, PROP); }
     case_loop(shard, u64::MAX, |_i, rng| {
         let kind = if shard.idx % 4 == 3 { 2 } else if shard.idx % 4 == 2 { 1 } else { 0 };
-        let p = Profile { with_dominance: true, reconvergent: rng.chance(3, 4), small: rng.chance(1, 2), depth_free_bias: rng.chance(1, 2), medium_share: 2, large_share: if shard.idx % 4 == 3 { 10 } else if shard.idx % 8 == 4 { 8 } else { 0 }, deceptive_share: if shard.idx % 8 == 7 { 12 } else { 0 }, ..Default::default() };
+        let p = Profile { with_dominance: true, reconvergent: rng.chance(3, 4), small: rng.chance(1, 2), depth_free_bias: rng.chance(1, 2), medium_share: 2, large_share: if shard.idx % 4 == 3 { 10 } else if shard.idx % 8 == 4 { 8 } else { 0 }, deceptive_share: if shard.idx % 8 == 7 { 12 } else if shard.idx % 8 == 4 { 10 } else { 0 }, ..Default::default() };
         let mut spec = if kind == 1 { let mut s = tiny_spec(rng, false); if rng.chance(1, 2) { s.size |= crate::models::tmodel::F_RECONVERGENT; } s } else { random_spec(rng, &p) };
         spec.cfg.monitors = 0;
         match kind {
